@@ -61,7 +61,8 @@ struct c20_session : public vsim_session {
     std::vector<unsigned char *> argv;
     for (auto &s : words) argv.push_back((unsigned char *) s.c_str());
     int err = run_colvarscript_command(argv.size(), argv.data());
-    res = get_colvarscript_result();
+    char const *r = get_colvarscript_result();
+    res = r ? r : "(null)";
     return err;
   }
 
@@ -85,19 +86,37 @@ struct c20_session : public vsim_session {
         o << "COMMAND " << names[i] << " " << cvscript_command_n_args_min(names[i]) << " "
           << cvscript_command_n_args_max(names[i]) << "\n";
       }
+      // the same entry points for a name that is not a command: NULL / -1 and an error, no crash
+      {
+        char const *bad = "cv_nosuchcommand";
+        cvm::clear_error();
+        bool const h = cvscript_command_help(bad) == NULL, rh = cvscript_command_rethelp(bad) == NULL, ah = cvscript_command_arghelp(bad, 0) == NULL,
+          fh = cvscript_command_full_help(bad) == NULL;
+        int const mn = cvscript_command_n_args_min(bad), mx = cvscript_command_n_args_max(bad);
+        o << "UNKNOWNCMD null=" << (h && rh && ah && fh ? 1 : 0) << " min=" << mn << " max=" << mx << " error=" << (cvm::get_error() != COLVARS_OK ? 1 : 0) << "\n";
+        cvm::clear_error();
+      }
+      // the documentation entry points of colvarscript_commands.cpp ('\x1f' between fields, '\x1e' for a newline)
+      for (int i = 0; i < n; i++) {
+        std::string t = std::string(cvscript_command_help(names[i])) + "\x1f" + cvscript_command_rethelp(names[i]) + "\x1f" +
+          cvscript_command_full_help(names[i]);
+        for (int a = 0; a < cvscript_command_n_args_max(names[i]); a++) t += std::string("\x1f") + cvscript_command_arghelp(names[i], a);
+        std::replace(t.begin(), t.end(), '\n', '\x1e');
+        o << "HELPTXT " << names[i] << " " << t << "\n";
+      }
       return true;
     }
     if (cmd == "scriptn" || cmd == "scriptfull") {
       // the rest of the line split on \x1f (allows empty words and blanks inside words); no rest => zero words
       std::vector<std::string> words;
       if (current_line.size() > cmd.size()) words = split_words(rest_of_line(cmd));
-      cvm::clear_error();
+      if (proxy) cvm::clear_error();
       std::string res;
       int err = run_words(words, res);
       std::replace(res.begin(), res.end(), '\n', ' ');
       if (cmd == "scriptn" && res.size() > 400) res = res.substr(0, 400);
       o << "SCRIPT err=" << (err == COLVARS_OK ? "ok" : "error") << " result=" << res << "\n";
-      cvm::clear_error();
+      if (proxy) cvm::clear_error();
       return true;
     }
     if (cmd == "names") {
@@ -244,6 +263,19 @@ struct c20_session : public vsim_session {
         o << "\n";
       }
       for (colvarbias *b : cv->biases) o << "SEMBIAS " << b->name << " " << vs_hex(b->get_energy()) << "\n";
+      // dependency state of every object as `get <feature>` must report it: description, available, enabled ('\x1f' separated)
+      for (colvar *c : *(cv->variables())) {
+        o << "SEMFEAT c:" << c->name;
+        for (size_t i = 0; i < c->features().size(); i++)
+          o << "\x1f" << c->features()[i]->description << "\x1f" << (c->is_available(i) ? 1 : 0) << "\x1f" << (c->is_enabled(i) ? 1 : 0);
+        o << "\n";
+      }
+      for (colvarbias *b : cv->biases) {
+        o << "SEMFEAT b:" << b->name;
+        for (size_t i = 0; i < b->features().size(); i++)
+          o << "\x1f" << b->features()[i]->description << "\x1f" << (b->is_available(i) ? 1 : 0) << "\x1f" << (b->is_enabled(i) ? 1 : 0);
+        o << "\n";
+      }
       o << "SEMEND\n";
       return true;
     }
